@@ -97,7 +97,7 @@ m("C05", "data/roll.py", "                    if count == 0:\n                  
 # ---------------------------------------------------------------- C06
 m("C06", "data/split.py", "                    elif new_predicate != current_predicate:", "                    if new_predicate != current_predicate:", "fire", ["DP-4"], "the split defect repaired by c14a7d7, re-introduced (first item compared with itself)")
 m("C06", "data/split.py", "if new_predicate != current_predicate:", "if new_predicate is not current_predicate:", "fire", ["EQ-1", "DP-4"])
-m("C06", "data/split.py", "                    if new_predicate != current_predicate:\n                        i.store.set_state(state, i.key, new_predicate)", "                    if new_predicate != current_predicate:\n                        i.store.set_state(state, i.key, current_predicate)", "fire", ["DP-4"])
+m("C06", "data/split.py", "                    elif new_predicate != current_predicate:\n                        i.store.set_state(state, i.key, new_predicate)", "                    elif new_predicate != current_predicate:\n                        i.store.set_state(state, i.key, current_predicate)", "fire", ["DP-4"])
 m("C06", "data/split.py", "                        observer.on_next(rs.OnCompletedMux((i.key[0], i.key), i.store))\n                        observer.on_next(rs.OnCreateMux((i.key[0], i.key), i.store))\n\n                    observer.on_next(i._replace(key=(i.key[0], i.key)))", "                        observer.on_next(i._replace(key=(i.key[0], i.key)))\n                        observer.on_next(rs.OnCompletedMux((i.key[0], i.key), i.store))\n                        observer.on_next(rs.OnCreateMux((i.key[0], i.key), i.store))\n                        return\n\n                    observer.on_next(i._replace(key=(i.key[0], i.key)))", "fire", ["DP-4"], "boundary item delivered to the old segment")
 m("C06", "data/split.py", "if new_predicate != current_predicate:", "if not (new_predicate == current_predicate):", "silent")
 # ---------------------------------------------------------------- C07
